@@ -1,5 +1,6 @@
 import MindsVerif.Lemmas.TokStr
 import MindsVerif.Lemmas.RawQueryLink
+import MindsVerif.Lemmas.TokStrRename
 import MindsVerif.Model.MultiWord
 import MindsVerif.Model.StoredAttr
 import MindsVerif.Gen.Valid_mindsdb
@@ -449,8 +450,18 @@ theorem pin_attrProblems : C16Data.attrProblems = [] := by decide
 
 /-- the payload families; each payload is an inner text the lexer accepts and `tokens_to_string` reproduces as written -/
 theorem pin_payloads : C16Data.payloadNames = ["jinja", "shell", "printf", "format", "backslash", "control", "spaces", "comment",
-    "semicolon", "keyword", "brackets", "unicode", "numbers", "long", "quotes", "outside"] ∧
+    "semicolon", "keyword", "brackets", "unicode", "numbers", "long", "surrogate", "ctrlchars", "astral", "quotes", "outside"] ∧
     C16Data.payloadsPlain.all id = true ∧ C16Data.payloadsPlain.length = C16Data.nPayloads := by decide
+
+/-- [round 6] the probed payloads span the code-point range of a Python `str` (decoded from the text codes by the kernel): lone
+surrogates, NUL, C0 / C1 controls, U+FEFF, U+2028 / U+2029, non-characters, astral code points up to U+10FFFF, combining marks,
+bidi controls, Unicode blanks -/
+theorem pin_payload_range :
+    allSeen [fun c => isSurrogate c, (· == 0), (· == 0x1f), (· == 0x7f), (· == 0x85), (· == 0x9f), (· == 0xFEFF), (· == 0x2028),
+       (· == 0x2029), (· == 0xFFFE), (· == 0xFFFF), (· == 0x10FFFF), (· == 0x1F600), (· == 0x301), (· == 0x202E), (· == 0xA0),
+       (· == 0x3000), (· == 0x200D)] 1000
+      (((C16Data.payloadNames.zip C16Data.texts).filter
+        (fun x => ["surrogate", "ctrlchars", "astral"].contains x.1)).map (·.2)) = true := by decide +kernel
 
 /-! regression witnesses: a way that rewrites the text is not transparent, and the stored attribute is not verbatim -/
 
@@ -483,5 +494,70 @@ theorem C16_regress_attr_not_transparent : ¬ (Path.mk (fun s => s) canonVars (f
     revert this; decide +kernel
 
 end attr
+
+/-! ## round 6 — characters are opaque: the full code-point range inside literals and quoted names
+
+`C16` quantifies over all `List Char`; Lean's `Char` is a Unicode scalar value, a Python `str` may also hold lone surrogates.
+`C16_opaque`: the function commutes with every renaming of characters that keeps exactly `'\n'` a newline and `' '` a blank —
+it never looks at, let alone changes, any other character.  This is what lets the correspondence streams carry lone
+surrogates (renamed per case to unused characters, harness side) and it is the model-level statement a text-level
+"hardening" such as `content.encode('utf-8', 'replace').decode('utf-8')` contradicts (`C16_regress_encode_replace`). -/
+section opaqueChars
+open MindsVerif.StoredAttr
+
+/-- **characters are opaque** (all token lists, no position hypothesis) -/
+theorem C16_opaque (ρ : Char → Char) (h : Opaque ρ) (toks : List Tok) :
+    tokensToString (toks.map (Tok.rename ρ)) = (tokensToString toks).map ρ := tokensToString_rename h toks
+
+/-- so is the specification, hence `C16` transfers along every opaque renaming -/
+theorem C16_opaque_verbatim (ρ : Char → Char) (h : Opaque ρ) (toks : List Tok) :
+    verbatim (toks.map (Tok.rename ρ)) = (verbatim toks).map ρ := verbatim_rename h toks
+
+/-- the source-layout model under the live lexer configuration: renaming the characters of gaps and lexemes renames the
+tokens, the source text and the stored-text specification -/
+theorem C16_opaque_layout (ρ : Char → Char) (h : Opaque ρ) (idx line : Nat) (r : List Seg) :
+    place C16Data.actCfg idx line (r.map (Seg.rename ρ)) = (place C16Data.actCfg idx line r).map (Tok.rename ρ) ∧
+    storedSpec (r.map (Seg.rename ρ)) = (storedSpec r).map ρ ∧
+    sourceText (r.map (Seg.rename ρ)) = (sourceText r).map ρ := by
+  rw [C16_live_cfg]
+  exact ⟨place_rename h r idx line, storedSpec_rename h r, sourceText_rename r⟩
+
+/-- non-vacuity: swapping two letters (and every renaming that moves only characters other than newline and blank) is opaque -/
+example : Opaque (fun c => if c = 'a' then 'b' else if c = 'b' then 'a' else c) := by
+  constructor
+  · intro c
+    by_cases ha : c = 'a'
+    · subst ha; decide
+    · by_cases hb : c = 'b'
+      · subst hb; decide
+      · simp [ha, hb]
+  · decide
+
+/-- `encode('utf-8', 'replace').decode('utf-8')` is the identity exactly on the texts without a lone surrogate -/
+theorem C16_encode_replace_iff (s : List Nat) : encReplace s = s ↔ ∀ c ∈ s, isSurrogate c = false := by
+  induction s with
+  | nil => simp [encReplace]
+  | cons c r ih =>
+    have ih' : List.map (fun c => if isSurrogate c = true then 63 else c) r = r ↔ ∀ c ∈ r, isSurrogate c = false := ih
+    simp only [encReplace, List.map_cons, List.cons.injEq, List.mem_cons, forall_eq_or_imp, ih']
+    constructor
+    · rintro ⟨h1, h2⟩
+      refine ⟨?_, h2⟩
+      cases hs : isSurrogate c with
+      | false => rfl
+      | true =>
+        rw [hs] at h1
+        simp at h1
+        subst h1
+        revert hs; decide
+    · rintro ⟨h1, h2⟩
+      exact ⟨by simp [h1], h2⟩
+
+/-- regression witness (seed of round 6): the code points of `'caf\udce9'` through such a hardening come back as `'caf?'` -/
+theorem C16_regress_encode_replace :
+    encReplace [39, 99, 97, 102, 0xDCE9, 39] = [39, 99, 97, 102, 63, 39] ∧ encReplace [39, 99, 97, 102, 0xDCE9, 39] ≠ [39, 99, 97, 102, 0xDCE9, 39] := by
+  decide
+
+end opaqueChars
 
 end MindsVerif.Props.C16
